@@ -447,11 +447,10 @@ def euclid_gcd_rule(fn):
     env = {qn: Sq, rn: Sr}
     # other loop-carried variables (the cofactor rows) do not matter here
     for st in fn.body[:fn.body.index(loop)]:
-        if isinstance(st, ast.Assign) and all(isinstance(t, ast.Name)
-                                              for t in st.targets):
+        if isinstance(st, ast.Assign):
             try:
                 it.stmt(st, env)
-            except AnalysisError:
+            except (AnalysisError, Raised):
                 pass
     env[qn], env[rn] = Sq, Sr
     try:
